@@ -356,6 +356,34 @@ def _region_points(thresholds):
     return pts
 
 
+def _domain_points(subject: str, pts, thresholds):
+    """What is known about the values of a numeric subject that is a single call: `x.find(..)` / `x.rfind(..)` are integers
+    >= -1, `len(..)` / `x.count(..)` / `x.index(..)` integers >= 0.  Representative points outside the domain are dropped; a
+    non-integral representative of an open region is replaced by an integer of that region when there is one."""
+    import math
+    import re as _re
+
+    m = _re.match(r"^1(\.0)?\*Call\((Attribute\(.*?, '(find|rfind|count|index)'\)|Name\('len'\))", subject)
+    if not m or subject.count("*Call(") + subject.count("*Name(") + subject.count("*Attribute(") + subject.count("*Subscript(") != 1:
+        return pts
+    low = -1 if m.group(3) in ("find", "rfind") else 0
+    thr = sorted(set(thresholds))
+    out = []
+    for p_ in pts:
+        if p_ < low:
+            continue
+        if float(p_).is_integer():
+            out.append(p_)
+            continue
+        lo = max([t for t in thr if t < p_], default=None)
+        hi = min([t for t in thr if t > p_], default=None)
+        cands = [math.floor(p_), math.ceil(p_)]
+        ok = [c for c in cands if (lo is None or c > lo) and (hi is None or c < hi) and c >= low]
+        if ok:
+            out.append(float(ok[0]))
+    return out or pts
+
+
 def eval3(f: Formula, bools: Dict[tuple, bool], nums: Dict[str, float]):
     """Three-valued evaluation under a partial assignment (None = undetermined)."""
     k = f[0]
@@ -416,7 +444,7 @@ def find_model(f: Formula, budget: int = 2_000_000):
     for a in atoms_of(f):
         if a[0] == "num":
             thresholds.setdefault(a[1], set()).add(a[3])
-    points = {s: _region_points(t) for s, t in thresholds.items()}
+    points = {s: _domain_points(s, _region_points(t), t) for s, t in thresholds.items()}
     steps = [0]
 
     def rec(bools, nums):
